@@ -11,7 +11,10 @@ import HcModel.Bytes
                                                           a request of unknown length — chunked coding)
       body counted down                                  .inBody
       bytes after a complete request                     none  (the connection is closed)
-    responseWritten() (called by Write before it writes) respond
+    responseWritten() (called by Write before it writes) respond   — for the final response of the request; an INTERIM
+                                                          response (`HTTP/1.1 100 Continue`, which net/http writes when a
+                                                          handler starts to read the body of a request that carries
+                                                          `Expect: 100-continue`) is not the response: `interim` (F48)
 
   The body is consumed here one byte at a time; the Go code takes min(len(b), body) bytes in one step, which is the same
   function (tied by the correspondence stream `plain`).
@@ -57,19 +60,27 @@ def feed (cl : Bytes → Option Nat) (maxHeader : Nat) : St → Bytes → Option
 /-- a response is about to be written: the next request may follow -/
 def respond (s : St) : St := { s with complete := false }
 
+/-- an interim response (1xx) is written: nothing changes — the request is still waiting for its response.
+    `fixed := false`: before the repair of F48 every plaintext write counted as the response -/
+def interim (fixed : Bool) (s : St) : St := if fixed then s else respond s
+
 inductive Ev
   | read (b : Bytes)
   | respond
+  | interim
 deriving Repr
 
 /-- a history of raw reads and responses; `none` as soon as a read is refused -/
-def run (cl : Bytes → Option Nat) (maxHeader : Nat) : St → List Ev → Option St
+def runF (fixed : Bool) (cl : Bytes → Option Nat) (maxHeader : Nat) : St → List Ev → Option St
   | s, [] => some s
   | s, .read b :: es =>
     match feed cl maxHeader s b with
     | none => none
-    | some s' => run cl maxHeader s' es
-  | s, .respond :: es => run cl maxHeader (respond s) es
+    | some s' => runF fixed cl maxHeader s' es
+  | s, .respond :: es => runF fixed cl maxHeader (respond s) es
+  | s, .interim :: es => runF fixed cl maxHeader (interim fixed s) es
+
+def run (cl : Bytes → Option Nat) (maxHeader : Nat) : St → List Ev → Option St := runF true cl maxHeader
 
 /-- number of bytes of `b` that are accepted before the first refusal (all of them if none is refused) -/
 def accepted (cl : Bytes → Option Nat) (maxHeader : Nat) : St → Bytes → Nat
